@@ -1644,13 +1644,23 @@ class HTTP11ClientProtocol(Protocol):
 
             # We call the quiescent callback first, to ensure connection gets
             # added back to connection pool before we finish the request.
+            # Detach the parser from this protocol before the callback runs:
+            # the callback may issue the next request, which installs a new
+            # parser that must not be the one disconnected below.
+            parser = self._parser
+            self._parser = None
+            self._currentRequest = None
+            self._finishedRequest = None
+            self._responseDeferred = None
+            self._transportProxy.stopProxying()
+            self._transportProxy = None
             with _moduleLog.failuresHandled("while invoking quiescent callback:") as op:
                 self._quiescentCallback(self)
             if op.failed:
                 # If callback throws exception, just log it and disconnect;
                 # keeping persistent connections around is an optimisation:
                 self.transport.loseConnection()
-            self._disconnectParser(reason)
+            parser.connectionLost(reason)
 
     _finishResponse_TRANSMITTING = _finishResponse_WAITING
 
